@@ -96,7 +96,11 @@ def run(ctx, spec):
       if b == 0:
         # every shard contributes the two families that are expensive to make
         arts.append(workloads.rsa_artifact(rng, 'lhw'))
-        arts.append(workloads.rsa_artifact(rng, 'keypair-collision'))
+        # the genuine covered key first, then a modulus that shares its 64
+        # leading bits (same check objects, same batch and later batches)
+        kc = workloads.rsa_artifact(rng, 'keypair-collision')
+        arts.append(kc['genuine'])
+        arts.append({k: v for k, v in kc.items() if k != 'genuine'})
         while True:
           a = workloads.rsa_artifact(rng, 'smooth')
           if (a['q'] - 1) % 65537 or True:
